@@ -368,7 +368,7 @@ def gen_c09(engine, mode):
         rng = _rng(seed, 90 + len(mode))
         asyncish = engine == "async"
         mg = MachineGen(rng, prof(n_states=(3, 8), max_depth=rng.choice((2, 3)), p_invoke=0.5,
-                                  p_shared_invoke_id=(0.5 if rng.random() < 0.4 else 0.0),
+                                  p_shared_invoke_id=(0.5 if rng.random() < 0.4 else 0.0), p_multi_invoke=0.3,
                                   svc_kinds=(("coro", "coro", "sync", "machine") if asyncish else ("sync", "sync", "machine")),
                                   events=3, p_trans=0.5, p_history=0.05, p_parallel=0.12, p_always=0.05, p_raise=0.05,
                                   p_slow_act=0.1, p_async_act=(0.1 if asyncish else 0.0), root_final=False, p_final=0.05,
